@@ -102,6 +102,13 @@ def check_tiling(ctx, fi, rule='R-TILE/window'):
             n += 1
             ctx.touch(fi)
             same = (tW == tS) or unparse(W) == unparse(S)
+            # `a + S - 1`, `(a + S) * 2`: the window end is not a + S
+            outer = getattr(e, '_parent', None)
+            if isinstance(outer, ast.BinOp) and isinstance(
+                    outer.op, (ast.Add, ast.Sub, ast.Mult, ast.FloorDiv,
+                               ast.Div)):
+                same = False
+                tW = ex.expand(outer, at)
             key = f'{fi.qual}:range#{li}:window#{wi}'
             wi += 1
             ctx.ob(rule, key, fi.loc(e), same,
